@@ -7,12 +7,12 @@ PROP = Property(
         VerusUnit("proofs", "verus/C11/proofs.tmpl.rs",
                   "extracted text, both proof formats: verify() Ok(v) ==> at least one part; every part's items are leaves proven (MKMapProof verify + contains, per item) by the decoding of that part's own proof string under "
                   "ONE root == v.merkle_root; v's items are exactly the parts' items in order; latest block number / security offset / certificate hash copied unchanged; the client's MessageBuilder rebuilds the signed message from "
-                  "the VERIFIED value's root, block number and offset (map update of the certificate's protocol message) - so a response with any of them altered fails the certificate's message match",
+                  "the VERIFIED value's root, block number and offset (map update of the certificate's protocol message) - so a response with any of them altered fails the certificate's message match; the stake-distribution message is rebuilt from the served distribution's own Merkle root and epoch",
                   ["CardanoTransactionsSetProof::verify", "CardanoTransactionsSetProof::merkle_root", "CardanoTransactionsSetProof::transactions_hashes", "CardanoTransactionsProofsMessage::verify",
                    "MkSetProof::verify", "MkSetProof::merkle_root", "ProofMessageVerifier::proof_message_into_entity", "ProofMessageVerifier::verify",
                    "CardanoTransactionsProofsV2Message::verify", "CardanoBlocksProofsMessage::verify", "VerifiedCardanoTransactions::fill_protocol_message",
                    "VerifiedCardanoTransactionsV2::{certified_merkle_root, latest_certified_block_number, security_parameter}", "VerifiedCardanoBlocks::{certified_merkle_root, latest_certified_block_number, security_parameter}",
-                   "MessageBuilder::compute_cardano_transactions_proofs_message", "MessageBuilder::compute_cardano_transactions_proofs_v2_message", "MessageBuilder::compute_cardano_blocks_proofs_message"]),
+                   "MessageBuilder::compute_cardano_transactions_proofs_message", "MessageBuilder::compute_cardano_transactions_proofs_v2_message", "MessageBuilder::compute_cardano_blocks_proofs_message", "MessageBuilder::compute_cardano_stake_distribution_message"]),
         VerusUnit("stake_leaf", "verus/C11/stake_leaf.tmpl.rs",
                   "extracted text of From<StakeDistributionEntry> for MKTreeNode: leaf == utf8(pool_id ++ dec(stake)); obligation: distinct (pool id, stake) entries have distinct leaves (KNOWN FINDING F-C11-1: fails); "
                   "restricted obligation: identifiers of equal length ==> distinct leaves (holds)",
